@@ -115,6 +115,37 @@ CLAIMED["C06"] = (
     "compared with the model only (oracle), no theorem.",
     ENG_NOTE, "DESIGN.md 4 C06")
 
+MET_NOTE = ("Trusted: Coq kernel + vm_compute with primitive binary64 floats (aggregators modelled operation by operation; same IEEE-754 arithmetic as Go on amd64); the hand-written metric model "
+            "(Model/Metric.v), tied to the code only by the correspondence run; xxhash abstracted (series keyed by the visible label set; injectivity of what is hashed is theorem serialise_inj, "
+            "collision-freedom of the hash assumed); math.Mod/math.Pow on their exact integer fragment only; log selection part via the C01 model and its oracles; mock storage of the harness; "
+            "timestamps compared in milliseconds; samples delivered in time order (C04).")
+CLAIMED["C09"] = (
+    "Coq proof (invariant over the history of window slides: consumed prefix / untouched rest / per-series window content; induction over any strictly increasing list of evaluation times) + differential correspondence on three evaluations per case (two grids and instant queries)",
+    "Theorems range_exact (for EVERY strictly increasing list of evaluation times, every step is stamped T, holds no duplicate series and reports for every label set exactly agg of the samples in [T-o-r, T-o] in arrival order, "
+    "nothing for an empty window), range_on_grid / grid_members (the engine's grid start+k*step <= end), grid_indep (the value at T is independent of grid start, step and the other times evaluated; instant = range), and the "
+    "refutation of the pre-fix eviction rule (D4). The check evaluates each generated range aggregation (13 functions, unwrap conversions, offsets, edge and tied samples) on two different grids and as instant queries on the real "
+    "engine and demands the window reading at every grid point and equal vectors at shared instants, plus equality with the faithful model.",
+    MET_NOTE + " `rate` over an unwrap expression counts lines in this code base (the sampler ignores the unwrap for rate); the model follows the code and DESIGN.md records it.",
+    "DESIGN.md 4 C09")
+CLAIMED["C10"] = (
+    "Coq proof (injectivity of the length-prefixed serialisation by digit induction; partition-count lemma; NoDup of keys as part of the range / vector aggregation invariants) + differential correspondence on adversarial label sets, evaluated twice",
+    "Theorems serialise_inj (the bytes hashed by Key() determine the visible label set, for all label sets incl. prefixes/concatenations), key_iff_labels, prefix_key_collides / prefix_key_order_dependent (D7 / D6 refuted for the pre-fix key), "
+    "no_dup_series_range / no_dup_series_vagg (no step holds two series with one label set), count_conserved (per step the series partition the samples of the window). The check runs count_over_time / sum by / sum without / nested "
+    "without over label sets that collide under naive concatenation or materialise in varying map order, twice per process, and demands equal results, no duplicate label set, the window reading and conserved counts.",
+    MET_NOTE, "DESIGN.md 4 C10")
+CLAIMED["C11"] = (
+    "Coq proof (fold invariant of the per-step group table; restriction algebra of by/without) + metamorphic correspondence: the outer aggregation's observed result against the aggregate of the OBSERVED inner vector",
+    "Theorems vagg_groups (one series per distinct combination of retained labels, value = aggregate of exactly the group's members in arrival order, timestamp kept, no duplicate), group_labels, no_grouping_single_group, by_nothing, "
+    "nested_no_reappear, prefix_grouping_refuted (D8 D9 D10), sort_permutation_partial. PARTIAL: ordering of sort/sort_desc and the bounded-heap selection of topk/bottomk are not theorems; they are demanded on every observed result "
+    "(k largest/smallest per group, none worse omitted, labels and values intact; sorted order) and compared with the exact container/heap model.",
+    MET_NOTE, "DESIGN.md 4 C11")
+CLAIMED["C12"] = (
+    "Coq proof (case analysis of the sample operators; list lemmas for literal / vector-vector / set operations) + metamorphic correspondence: the observed result against the operator applied to the OBSERVED operand vectors at every step",
+    "Theorems arith_op, div0_mod0_nan, cmp_one_iff, lit_binop (one output per input series, scalar on its side, labels untouched), vec_binop (one output per label set present on both sides, left labels, both values), set_ops (and / unless / or = "
+    "intersection / difference / union with left precedence by label set), vector_joins_empty_groups (D21). The `bool` modifier is modelled as coded (a false comparison yields 0 without it and no sample with it). The check covers all 15 operators, "
+    "both literal sides, negative and fractional scalars, vector(c), offsets, instant and range evaluation.",
+    MET_NOTE, "DESIGN.md 4 C12")
+
 REASON_PENDING = "check not built yet in this round; planned (see DESIGN.md section 4/8) - no claim is made until the proof and correspondence exist"
 
 def main():
